@@ -42,6 +42,12 @@ theorem C10_topo_closed {κ ν : Type} [DecidableEq κ] (g : Graph κ ν) (hwf :
     (order : List κ) (h : IsTopo g order) : closed g :=
   Dask.Lemmas.Graph.closed_of_topo hwf h
 
+/-- The executable order checker used in the correspondence (driver command `gr.istopo`, applied to
+the orders the instrumented executor and dask's own schedulers really used) is sound. -/
+theorem C10_checker_sound {κ ν : Type} [DecidableEq κ] (g : Graph κ ν) (order : List κ)
+    (h : isTopoB (skeleton g) order = true) : IsTopo g order :=
+  Dask.Lemmas.Graph.isTopoB_sound h
+
 /-! ### non-vacuity: a diamond with two different topological orders -/
 
 def t0 : Task Nat Int := ⟨[], fun _ => 5⟩
@@ -68,6 +74,8 @@ example : (evalOrder diamond [0, 1, 2, 3] Env.empty).map (fun e => [e 0, e 1, e 
     = some [some 5, some 6, some 10, some 16] := by decide
 example : (evalOrder diamond [0, 2, 1, 3] Env.empty).map (fun e => [e 0, e 1, e 2, e 3])
     = some [some 5, some 6, some 10, some 16] := by decide
+example : isTopoB (skeleton diamond) [0, 2, 1, 3] = true ∧ isTopoB (skeleton diamond) [1, 0, 2, 3] = false := by
+  decide
 /-- an order that is not topological needs an undefined dependency -/
 example : (evalOrder diamond [1, 0, 2, 3] Env.empty).isNone = true := by decide
 
